@@ -63,7 +63,16 @@ pub struct Ctx {
 fn src_path() -> PathBuf { verif_root().join("progs-src/c13_loop.rs") }
 
 fn user_fns(p: &Prog) -> Vec<(u64, u64, String)> {
-    p.symbols.iter().filter(|(_, _, n)| n.contains("8c13_loop")).cloned().collect()
+    p.symbols.iter().filter(|(_, _, n)| n.contains("8c13_loop") && !n.contains("8c13_loop4tick17h")).cloned().collect()
+}
+fn tick_range(p: &Prog) -> (u64, u64) {
+    p.symbols.iter().find(|(_, _, n)| n.contains("8c13_loop4tick17h")).map(|(a, s, _)| (*a, a + s)).unwrap_or((0, 0))
+}
+/// global address of the debuggee's `KTICK` counter (position discriminator), from the ELF symbol table
+fn ktick_addr(p: &Prog) -> u64 {
+    use object::{Object, ObjectSymbol};
+    let obj = object::File::parse(&*p.file).unwrap();
+    obj.symbols().find(|s| s.name().is_ok_and(|n| n.contains("8c13_loop5KTICK17h"))).map(|s| s.address()).expect("KTICK symbol")
 }
 
 fn fn_short(n: &str) -> &'static str {
@@ -194,16 +203,23 @@ impl Ctx {
         let mut tau = vec![];
         let mut k: i64 = -1;
         let mut outer = "main";
+        let (tlo, thi) = tick_range(&prog);
+        let (mut tag, mut in_tick) = (0u8, false);
         for s in &prog.trace {
-            let Some((a, _sz, n)) = in_user(s.pc) else { if uni.contains(&s.pc) { tau.push((s.pc, 0)); } continue };
+            let now_tick = s.pc >= tlo && s.pc < thi;
+            if in_tick && !now_tick { tag += 1; }
+            in_tick = now_tick;
+            if now_tick { continue; }
+            let Some((a, _sz, n)) = in_user(s.pc) else { if uni.contains(&s.pc) { tau.push((s.pc, 8 * tag)); } continue };
             let f = fn_short(n);
             if f == "work" && s.pc == *a { k += 1; }
             if f == "work" || f == "main" { outer = f; }
             let visible = scopes.iter().any(|(lo, hi)| s.pc >= *lo && s.pc < *hi);
             let env = if !visible || f == "main" || f == "other" { 0u8 }
                 else if outer == "main" { 1 } else { 1 + (k % 2 == 1) as u8 + 2 * (k >= 3) as u8 };
-            tau.push((s.pc, env));
+            tau.push((s.pc, env + 8 * tag));
         }
+        uni.retain(|a| !(*a >= tlo && *a < thi));
         let pe_ok: Vec<u64> = tau.iter().map(|(a, _)| *a).collect::<BTreeSet<_>>().into_iter().collect();
         let mut icands = pe_ok;
         // a never-executed instruction start inside `ident` (the early return) if the rows show one
@@ -248,7 +264,18 @@ fn opts_tok(o: &Opts) -> String {
 }
 fn split_items(tok: &str) -> Vec<&str> { if tok == "-" { vec![] } else { tok.split(',').collect() } }
 
-fn parse_cmd(line: &str) -> Cmd {
+/// `@marker` in a request file (corpus) stands for the line carrying `BP:marker` (setb) or its first address (seti)
+fn sym_line(ctx: &Ctx, tok: &str) -> Option<u64> {
+    match tok.strip_prefix('@') { Some(m) => ctx.markers.iter().find(|(n, _)| n == m).map(|x| x.1), None => tok.parse().ok() }
+}
+fn sym_addr(ctx: &Ctx, tok: &str) -> Option<u64> {
+    match tok.strip_prefix('@') {
+        Some(m) => { let l = ctx.markers.iter().find(|(n, _)| n == m)?.1; ctx.res_line.get(&l)?.first().copied() }
+        None => if is_hex(tok) && tok.len() <= 12 { u64::from_str_radix(tok, 16).ok() } else { None },
+    }
+}
+
+fn parse_cmd(ctx: &Ctx, line: &str) -> Cmd {
     let t: Vec<&str> = line.split(' ').filter(|x| !x.is_empty()).collect();
     let r: Option<Cmd> = (|| match t.as_slice() {
         ["C13", "new", sid, prog, _tau] if *prog == PROG => Some(Cmd::New { sid: sid.to_string() }),
@@ -257,7 +284,7 @@ fn parse_cmd(line: &str) -> Cmd {
             for it in split_items(bps) {
                 let f: Vec<&str> = it.split('/').collect();
                 if f.len() != 5 { return None; }
-                let line: u64 = f[0].parse().ok()?;
+                let line: u64 = sym_line(ctx, f[0])?;
                 if line == 0 || line > 100000 { return None; }
                 if f[1] != "-" && !f[1].split('+').all(is_hex) { return None; }
                 v.push((line, parse_opts(f[2], f[3], f[4])?));
@@ -278,8 +305,8 @@ fn parse_cmd(line: &str) -> Cmd {
             let mut v = vec![];
             for it in split_items(bps) {
                 let f: Vec<&str> = it.split('/').collect();
-                if f.len() != 5 || !is_hex(f[0]) || f[0].len() > 12 || !(f[1] == "0" || f[1] == "1") { return None; }
-                v.push((u64::from_str_radix(f[0], 16).ok()?, parse_opts(f[2], f[3], f[4])?));
+                if f.len() != 5 || !(f[1] == "0" || f[1] == "1") { return None; }
+                v.push((sym_addr(ctx, f[0])?, parse_opts(f[2], f[3], f[4])?));
             }
             Some(Cmd::SetI { bps: v })
         }
@@ -483,6 +510,7 @@ fn session(ctx_prog: &Prog, src: &str, cmds: &[Cmd], emit: &mut dyn FnMut(String
     };
     let mut tid: Option<i32> = None;
     let mut live = false;
+    let ktick = ktick_addr(ctx_prog);
     for c in cmds {
         let obs: Value = match c {
             Cmd::New { .. } => {
@@ -525,17 +553,19 @@ fn session(ctx_prog: &Prog, src: &str, cmds: &[Cmd], emit: &mut dyn FnMut(String
                         let stopped = msgs.iter().find(|m| m["event"] == "stopped");
                         let exited = msgs.iter().any(|m| m["event"] == "exited");
                         let mut pc = None;
+                        let mut tag: Option<u64> = None;
                         let mut reason = Value::Null;
                         if let Some(s) = stopped {
                             reason = s["body"]["reason"].clone();
                             if let Some(t) = s["body"]["threadId"].as_i64() { tid = Some(t as i32); }
                             pc = tid.and_then(proc_pc).map(|p| p.wrapping_sub(ctx_prog.base));
                             live = pc.is_some();
+                            if live { tag = tid.and_then(|t| proc_mem(t, ctx_prog.base + ktick, 8)).map(|b| u64::from_le_bytes(b.try_into().unwrap())); }
                         }
                         if exited { live = false; }
                         if stopped.is_none() && !exited { /* nothing ran, or the adapter is silent: state unchanged */ }
                         let i3 = if live { tid.and_then(|t| int3_set(ctx_prog, t)) } else { None };
-                        json!({"t": "run", "outs": outs, "reason": reason, "pc": pc, "exited": exited, "int3": i3,
+                        json!({"t": "run", "outs": outs, "reason": reason, "pc": pc, "tag": tag, "exited": exited, "int3": i3,
                                "nrsp": msgs.iter().filter(|m| m["type"] == "response").count()})
                     }
                 }
@@ -578,7 +608,7 @@ fn answer(obs: &Value) -> String {
         }
         "run" => {
             let outs: Vec<String> = obs["outs"].as_array().unwrap().iter().map(|o| out_tok(o.as_str().unwrap_or(""))).collect();
-            let pc = obs["pc"].as_u64().map(|p| format!("{p:x}")).unwrap_or("-".into());
+            let pc = obs["pc"].as_u64().map(|p| format!("{p:x}@{}", obs["tag"].as_u64().map(|t| t.to_string()).unwrap_or("?".into()))).unwrap_or("-".into());
             let outcome = if obs["exited"] == true { "exit".to_string() }
                 else if obs["reason"] == "breakpoint" { format!("stop {pc}") }
                 else if obs["reason"] == "entry" { format!("entry {pc}") }
@@ -657,8 +687,8 @@ impl<'a> Spec<'a> {
     fn cond_holds(c: &str, env: u8) -> Option<bool> {
         // None = the specification does not say (error cases): not judged
         match c { "n" | "lt" | "l1" => Some(true), "lf" | "l0" => Some(false),
-            "vo" | "po" => if (1..=4).contains(&env) { Some((env - 1) & 1 == 1) } else { None },
-            "vb" | "pb" => if (1..=4).contains(&env) { Some((env - 1) & 2 == 2) } else { None },
+            "vo" | "po" => if (1..=4).contains(&(env % 8)) { Some((env % 8 - 1) & 1 == 1) } else { None },
+            "vb" | "pb" => if (1..=4).contains(&(env % 8)) { Some((env % 8 - 1) & 2 == 2) } else { None },
             _ => None }
     }
     /// expected outcome of a run command from trace position `from`: (stop position | exit, log outputs); None = not judged
@@ -777,9 +807,11 @@ fn oracle_session(ctx: &Ctx, lines: &[String], cmds: &[Cmd], obs: &[Value], out:
                 let Some((want, want_logs)) = sp.run(from) else { sp.done = true; continue };
                 let got_logs: Vec<String> = o["outs"].as_array().unwrap().iter().map(|s| out_tok(s.as_str().unwrap_or(""))).collect();
                 let got_pc = o["pc"].as_u64();
+                let got_tag = o["tag"].as_u64();
                 let got_exit = o["exited"] == true || (o["reason"] == "entry" && got_pc.is_none());
                 let want_pc = want.map(|j| ctx.tau[j].0);
-                if got_exit && want.is_none() || (!got_exit && got_pc.is_some() && got_pc == want_pc) {
+                let want_tag = want.map(|j| (ctx.tau[j].1 / 8) as u64);
+                if got_exit && want.is_none() || (!got_exit && got_pc.is_some() && got_pc == want_pc && got_tag == want_tag) {
                     if got_logs != want_logs {
                         let a = want_pc.unwrap_or(0);
                         // which logpoint is missing/extra: classify by the first location carrying a log message between from and the stop
@@ -795,10 +827,10 @@ fn oracle_session(ctx: &Ctx, lines: &[String], cmds: &[Cmd], obs: &[Value], out:
                     continue;
                 }
                 // a differing stop: where did the implementation stop, and what does the specification say about that place?
-                let what = format!("`{}`: adapter reports {} {}, the reference trace restricted to the latest sets {:x?} says {}",
-                    lines[k], if got_exit { "exit".to_string() } else { format!("{}", o["reason"]) }, got_pc.map(|p| format!("{p:x}")).unwrap_or("-".into()),
-                    sp.installed(), want_pc.map(|p| format!("stop {p:x}")).unwrap_or("exit".into()));
-                let got_pos = got_pc.and_then(|p| (from..ctx.tau.len()).find(|j| ctx.tau[*j].0 == p));
+                let what = format!("`{}`: adapter reports {} {}@{:?}, the reference trace restricted to the latest sets {:x?} says {}",
+                    lines[k], if got_exit { "exit".to_string() } else { format!("{}", o["reason"]) }, got_pc.map(|p| format!("{p:x}")).unwrap_or("-".into()), got_tag,
+                    sp.installed(), want_pc.map(|p| format!("stop {p:x}@{}", want_tag.unwrap_or(0))).unwrap_or("exit".into()));
+                let got_pos = got_pc.and_then(|p| (from..ctx.tau.len()).find(|j| ctx.tau[*j].0 == p && Some((ctx.tau[*j].1 / 8) as u64) == got_tag));
                 let earlier = match (got_pos, want) { (Some(g), Some(w)) => g < w, (Some(_), None) => true, _ => false };
                 if earlier {
                     let a = got_pc.unwrap();
@@ -842,7 +874,7 @@ pub fn exec(req: &[String], out: &mut Out, dir: &Path) {
     let mut sessions: Vec<Vec<(usize, String, Cmd)>> = vec![];
     let mut order: Vec<(bool, usize, usize)> = vec![]; // (is_session_line, session idx / pure idx, index inside)
     for l in req {
-        let c = parse_cmd(l);
+        let c = parse_cmd(&ctx, l);
         match c {
             Cmd::Hc { .. } => { order.push((false, pure.len(), 0)); pure.push((0, l.clone())); }
             Cmd::New { .. } => { sessions.push(vec![(0, canon_line(&ctx, &c, l), c)]); order.push((true, sessions.len() - 1, 0)); }
@@ -892,7 +924,7 @@ pub fn exec(req: &[String], out: &mut Out, dir: &Path) {
         else {
             let (bad, l) = &pure[i];
             if *bad == 1 { out.pair(l.clone(), "bad-op".into()); continue; }
-            let Cmd::Hc { text, hits } = parse_cmd(l) else { unreachable!() };
+            let Cmd::Hc { text, hits } = parse_cmd(&ctx, l) else { unreachable!() };
             let ans = hc_answer(&text, hits);
             out.oracle_evals += 1;
             let m = ans.ends_with('1');
